@@ -123,6 +123,13 @@ def gen_case(rng, tier):
         if lim < 1000 and rng.random() < 0.25:
             rid = rid + 'z' * rng.randrange(lim - 12, lim + 4)     # header line around the reader's limit
         recs.append(dict(rid=rid, enc=enc, pl=spec))
+    if rng.random() < 0.04:
+        # tiny stream: one short record, fed under every possible chunking (exhaustive for its length)
+        recs = [dict(rid=rng.choice('7ax'), enc='none', pl=[rng.choice(['nl', 'hdr', 'empty']), rng.choice([0, 1, 2]),
+                                                           rng.randrange(1 << 30)])]
+        lim = rng.choice([65536, 24])
+        if mode == 'raw':
+            mode = 'clean'
     case = dict(kind='frame', mode=mode, lim=lim, recs=recs, nchunk=rng.choice([2, 3, 4]),
                 timeout=rng.random() < 0.3, seed=rng.randrange(1 << 30))
     if mode == 'trunc':
@@ -187,11 +194,19 @@ class _Writer:
         await asyncio.sleep(0)
 
 
+EXHAUSTIVE_MAX = 11      # streams up to this length are fed under ALL 2^(L-1) chunkings
+
+
 def chunkings(data, rng, n, edges):
     """a list of chunk lists: whole; byte-wise (short streams); cuts right around record/header
-    boundaries; random cuts"""
+    boundaries; random cuts; every possible chunking for tiny streams"""
     out = [[data]]
     L = len(data)
+    if 1 < L <= EXHAUSTIVE_MAX:
+        for mask in range(1, 1 << (L - 1)):
+            cuts = [i + 1 for i in range(L - 1) if mask >> i & 1]
+            out.append([data[a:b] for a, b in zip([0] + cuts, cuts + [L])])
+        return out
     if 0 < L <= 600:
         out.append([data[i:i + 1] for i in range(L)])
     if edges and L:
@@ -323,6 +338,7 @@ def run_case(case):
         if case['mode'] == 'trunc' and len(have) > len(expect):
             mon.append(dict(prop='C18', rule='frame-phantom', detail=f'{len(have)} records read from a cut stream of {len(expect)}'))
     res = dict(monitors=mon, end=end0, nread=len(got0), nchunkings=len(results), wire_len=len(wire),
+               exhaustive_chunkings=(1 < len(feed) <= EXHAUSTIVE_MAX), feed_len=len(feed),
                events=[hashlib.sha1(feed).hexdigest(), end0, len(got0)])
     # material for the model comparison (kept compact: hex strings)
     res['recs_hex'] = [f"{_hex(r['rid'].encode())}:{r['enc']}:{_hex(sr[0])}" for r, sr in zip(case['recs'], sent_raw)]
